@@ -71,6 +71,11 @@ def documents():
                        entries=[mk.entry('xr-e1', 'chain', 'n', senses=[mk.sense('xr-s1', 'xr-ss1')])],
                        synsets=[mk.synset('xr-ss1', 'n', '')]),
             S, T]}, []),
+        # a base and its extension in ONE file; 'bundle-pre': the same file added when the base alone is installed
+        # already (the base is skipped as already added, the extension - whose base IS installed - must be added):
+        # the result must equal what the bundle gives in an empty database
+        'bundle': ({'lmf_version': v, 'lexicons': [M, X]}, []),
+        'bundle-pre': ({'lmf_version': v, 'lexicons': [M, X]}, [{'lmf_version': v, 'lexicons': [M]}]),
         'skip-mix-ref': ({'lmf_version': v, 'lexicons': [S, T]}, []),
         # two versions of one lexicon id (independent packages of one collection): which of them is "the most
         # recently added" is observable through a bare-id specifier
@@ -247,7 +252,8 @@ def _reference(docname, d):
             f = env.write_file('ref.xml', boundary_doc(65536, int(docname.split('-')[1]), 'multi', 'lines').encode('ascii'), d)
             env.add_resource(lmf.load(f, progress_handler=None))
         else:
-            resource, pre = documents()['skip-mix-ref' if docname in ('skip-mix', 'skip-chain') else docname]
+            resource, pre = documents()[{'skip-mix': 'skip-mix-ref', 'skip-chain': 'skip-mix-ref',
+                                         'bundle-pre': 'bundle'}.get(docname, docname)]
             for i, p in enumerate(pre):
                 env.add(env.write_file(f'refpre{i}.xml', xmlw.serialize(p), d))
             env.add(env.write_file('ref.xml', xmlw.serialize(resource), d))
